@@ -421,7 +421,7 @@ namespace c07
     }
 
     // (3) status value is a final one
-    if(rec.st == Status::undefined || rec.st == Status::progress) { V("status-not-final", det, {st_tag}); return; }
+    if(rec.st == Status::undefined || rec.st == Status::progress) { V("status-not-final", det, {st_tag, rec.d0 == 0.0 ? "def0:reported_zero" : (rec.d0 <= EPS * EPS ? "def0:below_eps2" : "")}); return; }
 
     const bool early0 = rec.iters == 0; // stopped by _set_initial_defect (documented early-outs: def0 < tol_abs_low, def0 <= eps^2, non-finite)
     LD magx = 0; const LD dx = true_defect(s, rec.x, *rc.b, &magx);
